@@ -145,6 +145,27 @@ pub fn run_tokens(args: &Args, mut out: Out) {
             }
         }
     }
+    // sizes at the edges of the narrower integer types: a pool of n units has n units (nothing wraps or truncates)
+    for size in [255usize, 256, 257, 1000, 65_535, 65_536, 65_537] {
+        sid += 1;
+        if !out.wants(sid) {
+            continue;
+        }
+        let got = catch(|| {
+            let set = TokenSet::new(size);
+            let mut held = vec![];
+            while held.len() < size + 3 {
+                match set.wait_token_timeout(Duration::ZERO) {
+                    Ok(t) => held.push(t),
+                    Err(_) => break,
+                }
+            }
+            held.len()
+        })
+        .unwrap_or(0);
+        out.ev(sid, "Reset", json!({}));
+        out.ev(sid, "Tokens", json!({"size":size,"steps":[],"refill":got}));
+    }
     out.finish();
 }
 
